@@ -55,6 +55,21 @@ class Module:
         return out
 
 
+    def defines(self, cname, names):
+        """does class cname (or a base class defined in this module) define one of the special methods `names`
+        (as a def or as a class attribute)?"""
+        for c in [cname] + self.bases(cname):
+            cls = self.classes.get(c)
+            if cls is None:
+                continue
+            for n in cls.body:
+                if isinstance(n, (ast.FunctionDef, ast.AsyncFunctionDef)) and n.name in names:
+                    return True
+                if isinstance(n, ast.Assign) and any(isinstance(t, ast.Name) and t.id in names for t in n.targets):
+                    return True
+        return False
+
+
 _modules = {}
 
 
@@ -76,6 +91,24 @@ def fn_hash(fn):
                 and isinstance(getattr(n.body[0], 'value', None), ast.Constant) and isinstance(n.body[0].value.value, str):
             n.body = n.body[1:] or [ast.Pass()]
     return hashlib.sha1(ast.dump(f, include_attributes=False).encode()).hexdigest()[:16]
+
+
+def class_context(mod):
+    """What a function's verification conditions depend on outside its own body: which classes exist, their bases, decorators,
+    and which special (double-underscore) methods and class attributes they define (these decide what ==, in, truth value,
+    iteration ... mean).  Part of the per-function hash: a function counts as unchanged only if this is unchanged too."""
+    out = []
+    for cname in sorted(mod.classes):
+        cls = mod.classes[cname]
+        names = []
+        for n in cls.body:
+            if isinstance(n, (ast.FunctionDef, ast.AsyncFunctionDef)) and n.name.startswith('__'):
+                names.append(n.name)
+            elif isinstance(n, ast.Assign):
+                names += [t.id for t in n.targets if isinstance(t, ast.Name)]
+        out.append((cname, [ast.unparse(b) for b in cls.bases], [ast.unparse(d) for d in cls.decorator_list],
+                    [ast.unparse(k) for k in cls.keywords], sorted(names)))
+    return hashlib.sha1(repr(out).encode()).hexdigest()[:8]
 
 
 def is_generator(fn):
